@@ -5,6 +5,14 @@ import Mathlib.Tactic.Linarith
 import Mathlib.Tactic.NormNum
 import Mathlib.Algebra.Order.Field.Basic
 import Mathlib.Algebra.BigOperators.Group.List.Basic
+import Mathlib.Algebra.BigOperators.Ring.Finset
+import Mathlib.LinearAlgebra.Matrix.NonsingularInverse
+import Mathlib.LinearAlgebra.Matrix.Trace
+import Mathlib.Analysis.SpecialFunctions.Log.Deriv
+import Mathlib.Analysis.Calculus.Deriv.Inv
+import Mathlib.Analysis.Calculus.Deriv.Add
+import Mathlib.LinearAlgebra.Matrix.Determinant.Basic
+import Mathlib.Algebra.BigOperators.Group.Finset.Piecewise
 /-!
 Helper lemmas for C19 (Props/C19.lean): point updates of a parameter vector, the nested-parameter scatter/gather, and the
 memo-table invariant behind the cache theorems.
@@ -107,6 +115,121 @@ theorem cache_transparent_iff (keyOf : ω → κ) (sem : ω → π → ν) :
     exact runCache_sound keyOf sem hdet ops [] (by intro e he; simp at he)
 
 end Cache
+
+/-! ### general quadratic functions of n parameters restricted to a coordinate line / plane -/
+section QuadForm
+open Finset
+variable {K : Type} [Field K]
+
+/-- a general quadratic function of the first `n` parameters -/
+def quadForm (n : ℕ) (c : K) (b : ℕ → K) (A : ℕ → ℕ → K) (p : ℕ → K) : K :=
+  c + ∑ k ∈ range n, b k * p k + ∑ k ∈ range n, ∑ l ∈ range n, A k l * p k * p l
+
+theorem quad_expand (n : ℕ) (c : K) (b : ℕ → K) (A : ℕ → ℕ → K) (x y z : ℕ → K) (s t : K) :
+    quadForm n c b A (fun k => x k + s * y k + t * z k)
+      = (c + ∑ k ∈ range n, b k * x k + ∑ k ∈ range n, ∑ l ∈ range n, A k l * x k * x l)
+        + s * (∑ k ∈ range n, b k * y k + ∑ k ∈ range n, ∑ l ∈ range n, (A k l * x k * y l + A k l * y k * x l))
+        + t * (∑ k ∈ range n, b k * z k + ∑ k ∈ range n, ∑ l ∈ range n, (A k l * x k * z l + A k l * z k * x l))
+        + s ^ 2 * (∑ k ∈ range n, ∑ l ∈ range n, A k l * y k * y l)
+        + t ^ 2 * (∑ k ∈ range n, ∑ l ∈ range n, A k l * z k * z l)
+        + s * t * (∑ k ∈ range n, ∑ l ∈ range n, (A k l * y k * z l + A k l * z k * y l)) := by
+  unfold quadForm
+  have h1 : ∀ k, b k * (x k + s * y k + t * z k) = b k * x k + s * (b k * y k) + t * (b k * z k) := fun k => by ring
+  have h2 : ∀ k l, A k l * (x k + s * y k + t * z k) * (x l + s * y l + t * z l)
+      = A k l * x k * x l + s * (A k l * x k * y l + A k l * y k * x l) + t * (A k l * x k * z l + A k l * z k * x l)
+        + s ^ 2 * (A k l * y k * y l) + t ^ 2 * (A k l * z k * z l) + s * t * (A k l * y k * z l + A k l * z k * y l) :=
+    fun k l => by ring
+  simp only [h1, h2, Finset.sum_add_distrib, ← Finset.mul_sum]
+  ring
+
+/-- Kronecker vector -/
+def kron (i : ℕ) : ℕ → K := fun k => if k = i then 1 else 0
+
+theorem sum_kron (n i : ℕ) (hi : i < n) (f : ℕ → K) : ∑ k ∈ range n, f k * kron i k = f i := by
+  simp [kron, Finset.sum_ite_eq', hi]
+
+theorem sum_kron2 (n i j : ℕ) (hi : i < n) (hj : j < n) (A : ℕ → ℕ → K) :
+    ∑ k ∈ range n, ∑ l ∈ range n, A k l * kron i k * kron j l = A i j := by
+  simp [kron, Finset.sum_ite_eq', hi, hj]
+
+/-- restriction of a quadratic function to the coordinate plane (i, j) through p0 -/
+theorem quadForm_plane (n : ℕ) (c : K) (b : ℕ → K) (A : ℕ → ℕ → K) (p0 : ℕ → K) (i j : ℕ) (hij : i ≠ j) (hi : i < n) (hj : j < n) :
+    ∃ u v : K → K, ∀ s t, quadForm n c b A (upd (upd p0 i s) j t) = u s + v t + (A i j + A j i) * s * t := by
+  let r : ℕ → K := fun k => if k = i then 0 else if k = j then 0 else p0 k
+  have hP : ∀ s t, upd (upd p0 i s) j t = fun k => r k + s * kron i k + t * kron j k := by
+    intro s t; funext k
+    by_cases hkj : k = j
+    · subst hkj
+      have : k ≠ i := fun q => hij q.symm
+      simp [upd, r, kron, this]
+    · by_cases hki : k = i
+      · subst hki; simp [upd, r, kron, hkj]
+      · simp [upd, r, kron, hkj, hki]
+  have hc : ∑ k ∈ range n, ∑ l ∈ range n, (A k l * kron i k * kron j l + A k l * kron j k * kron i l) = A i j + A j i := by
+    simp only [Finset.sum_add_distrib]
+    rw [sum_kron2 n i j hi hj, sum_kron2 n j i hj hi]
+  refine ⟨fun s => (c + ∑ k ∈ range n, b k * r k + ∑ k ∈ range n, ∑ l ∈ range n, A k l * r k * r l)
+            + s * (∑ k ∈ range n, b k * kron i k + ∑ k ∈ range n, ∑ l ∈ range n, (A k l * r k * kron i l + A k l * kron i k * r l))
+            + s ^ 2 * (∑ k ∈ range n, ∑ l ∈ range n, A k l * kron i k * kron i l),
+          fun t => t * (∑ k ∈ range n, b k * kron j k + ∑ k ∈ range n, ∑ l ∈ range n, (A k l * r k * kron j l + A k l * kron j k * r l))
+            + t ^ 2 * (∑ k ∈ range n, ∑ l ∈ range n, A k l * kron j k * kron j l), ?_⟩
+  intro s t
+  rw [hP, quad_expand, hc]
+  ring
+
+/-- restriction to one coordinate line -/
+theorem quadForm_line (n : ℕ) (c : K) (b : ℕ → K) (A : ℕ → ℕ → K) (p0 : ℕ → K) (i : ℕ) (hi : i < n) :
+    ∃ c0 c1 : K, ∀ s, quadForm n c b A (upd p0 i s) = c0 + c1 * s + A i i * s ^ 2 := by
+  let r : ℕ → K := fun k => if k = i then 0 else p0 k
+  have hP : ∀ s, upd p0 i s = fun k => r k + s * kron i k + 0 * kron i k := by
+    intro s; funext k
+    by_cases hki : k = i
+    · subst hki; simp [upd, r, kron]
+    · simp [upd, r, kron, hki]
+  refine ⟨c + ∑ k ∈ range n, b k * r k + ∑ k ∈ range n, ∑ l ∈ range n, A k l * r k * r l,
+          ∑ k ∈ range n, b k * kron i k + ∑ k ∈ range n, ∑ l ∈ range n, (A k l * r k * kron i l + A k l * kron i k * r l), ?_⟩
+  intro s
+  rw [hP, quad_expand, sum_kron2 n i i hi hi]
+  ring
+
+end QuadForm
+
+/-! ### calculus: Poisson log-likelihood of a model that is affine along a parameter direction -/
+section Calc
+open Finset
+/-- score of the Poisson log-likelihood of a model affine along a parameter direction -/
+theorem poisson_score {ι : Type} (s : Finset ι) (m b d : ι → ℝ) (hm : ∀ i ∈ s, m i ≠ 0) :
+    HasDerivAt (fun t : ℝ => ∑ i ∈ s, (-(m i + t * b i) + d i * Real.log (m i + t * b i)))
+      (∑ i ∈ s, (-(b i) + d i * b i / m i)) 0 := by
+  have h : ∀ i ∈ s, HasDerivAt (fun t : ℝ => -(m i + t * b i) + d i * Real.log (m i + t * b i)) (-(b i) + d i * b i / m i) 0 := by
+    intro i hi
+    have h1 : HasDerivAt (fun t : ℝ => m i + t * b i) (b i) 0 := by
+      simpa using ((hasDerivAt_id (0 : ℝ)).mul_const (b i)).const_add (m i)
+    have h2 := h1.log (by simpa using hm i hi)
+    have h3 := (h1.neg).add (h2.const_mul (d i))
+    have hfun : (fun t : ℝ => -(m i + t * b i) + d i * Real.log (m i + t * b i))
+        = ((-fun t => m i + t * b i) + fun y => d i * Real.log (m i + y * b i)) := by funext t; simp
+    rw [hfun]
+    exact h3.congr_deriv (by simp only [zero_mul, add_zero]; ring)
+  exact HasDerivAt.fun_sum h
+
+theorem poisson_info {ι : Type} (s : Finset ι) (m b c d : ι → ℝ) (hm : ∀ i ∈ s, m i ≠ 0) :
+    HasDerivAt (fun t : ℝ => ∑ i ∈ s, (-(b i) + d i * b i / (m i + t * c i)))
+      (-(∑ i ∈ s, d i * b i * c i / m i ^ 2)) 0 := by
+  have h : ∀ i ∈ s, HasDerivAt (fun t : ℝ => -(b i) + d i * b i / (m i + t * c i)) (-(d i * b i * c i / m i ^ 2)) 0 := by
+    intro i hi
+    have h1 : HasDerivAt (fun t : ℝ => m i + t * c i) (c i) 0 := by
+      simpa using ((hasDerivAt_id (0 : ℝ)).mul_const (c i)).const_add (m i)
+    have h2 := (h1.inv (by simpa using hm i hi)).const_mul (d i * b i)
+    have h3 := h2.const_add (-(b i))
+    have e : (fun t : ℝ => -(b i) + d i * b i / (m i + t * c i)) = fun x => -b i + d i * b i * (fun t => m i + t * c i)⁻¹ x := by
+      funext t; simp [div_eq_mul_inv]
+    rw [e]
+    exact h3.congr_deriv (by simp only [zero_mul, add_zero]; ring)
+  have := HasDerivAt.fun_sum h
+  simpa [Finset.sum_neg_distrib] using this
+
+end Calc
 
 end Godambe
 end DadiVerif
